@@ -725,7 +725,8 @@ def check_replays(ctx, prop, cfg, behs, keys=None, scales=None, modes=("do",), l
         for mode in (list(these) + ["do+release"] if multi else these):
             q = (scales or SCALES)[(i + ctx.seed) % len(scales or SCALES)]
             style = STYLES[((i + ctx.seed) // len(scales or SCALES)) % len(STYLES)]
-            off = (cfg["T0"] + 2 * cfg["Tock"]) if ((i + ctx.seed) % 5 == 4 and q in SCALES) else 0
+            # every third behaviour starts below zero, 1-3 scheduler tocks before tyme 0.0
+            off = (cfg["T0"] + ((i // 3) % 3 + 1) * cfg["Tock"]) if ((i + ctx.seed) % 3 == 2 and q in SCALES) else 0
             real = replay(cfg, b, q=q, seed=ctx.seed * 1000003 + i, mode="do" if mode == "do+release" else mode,
                           release=(mode == "do+release"), style=style, off=off)
             reals[mode] = real
